@@ -790,6 +790,51 @@ def delRef (name dg : Bytes) : Bytes := List.replicate name.length 120 ++ 45 :: 
 theorem delRef_length (name dg : Bytes) : (delRef name dg).length = (name ++ 45 :: dg).length := by
   simp [delRef]
 
+theorem allEq_replicate (c n : Nat) : allEq c (List.replicate n c) = true := by
+  induction n with
+  | zero => rfl
+  | succ n ih => simp [List.replicate_succ, allEq, ih]
+
+/-- what `delete` writes into a header is of the deleted form, which walker and streamer skip -/
+theorem isDeletedRef_delRef (name dg : Bytes) (h1 : name ≠ []) (h2 : dg ≠ []) :
+    isDeletedRef (delRef name dg) = true := by
+  have hn : 45 ∉ List.replicate name.length 120 := by
+    intro hm; have := List.eq_of_mem_replicate hm; omega
+  unfold isDeletedRef delRef
+  rw [indexOf_append_hit 45 _ _ hn]
+  have hl1 : name.length ≠ 0 := fun e => h1 (List.eq_nil_of_length_eq_zero e)
+  have hl2 : dg.length ≠ 0 := fun e => h2 (List.eq_nil_of_length_eq_zero e)
+  have e1 : (List.replicate name.length 120 ++ 45 :: List.replicate dg.length 48).take (List.replicate name.length 120).length =
+      List.replicate name.length 120 := List.take_left
+  have e2 : (List.replicate name.length 120 ++ 45 :: List.replicate dg.length 48).drop ((List.replicate name.length 120).length + 1) =
+      List.replicate dg.length 48 := by
+    rw [show List.replicate name.length 120 ++ 45 :: List.replicate dg.length 48 =
+      (List.replicate name.length 120 ++ [45]) ++ List.replicate dg.length 48 by simp, List.drop_left' (by simp)]
+  simp only [e1, e2, allEq_replicate]
+  simp [hl1, hl2]
+
+theorem recOK_delRef (okRef : Bytes → Bool) (name dg B : Bytes) (h1 : name ≠ []) (h2 : dg ≠ [])
+    (hl : name.length + dg.length + 1 ≤ 480) (hB : B.length < 4294967296) :
+    recOK okRef ⟨delRef name dg, B⟩ = true := by
+  have hd := isDeletedRef_delRef name dg h1 h2
+  have hne : delRef name dg ≠ [] := by simp [delRef]
+  have hs : 32 ∉ delRef name dg := by
+    intro hm
+    simp only [delRef, List.mem_append, List.mem_cons] at hm
+    rcases hm with hm | hm | hm
+    · have := List.eq_of_mem_replicate hm; omega
+    · omega
+    · have := List.eq_of_mem_replicate hm; omega
+  have hc : 93 ∉ delRef name dg := by
+    intro hm
+    simp only [delRef, List.mem_append, List.mem_cons] at hm
+    rcases hm with hm | hm | hm
+    · have := List.eq_of_mem_replicate hm; omega
+    · omega
+    · have := List.eq_of_mem_replicate hm; omega
+  have hlen : (delRef name dg).length ≤ 480 := by simp [delRef]; omega
+  simp [recOK, hd, hne, hs, hc, hlen, hB]
+
 theorem deletedHeader_encodeHeader (name dg : Bytes) (size : Nat) (h1 : 45 ∉ name) (h2 : 32 ∉ dg) :
     deletedHeader (encodeHeader (name ++ 45 :: dg) size) = some (encodeHeader (delRef name dg) size) := by
   have e0 : encodeHeader (name ++ 45 :: dg) size = 91 :: (hdrLine (name ++ 45 :: dg) size ++ [93]) :=
